@@ -1,4 +1,4 @@
-\* M+G (quick, 1 case in 5 of the exhaustive enumeration - residue class chosen by the seed, nested): <= 2 members, each a byte, a pointer or a nested struct / packed struct / union of <= 2 such members, alone or as an array of 2; pointer size 32 (where the layout differs from the host)
+\* M+G (quick, 1 case in 8 of the exhaustive enumeration - residue class chosen by the seed, nested): <= 2 members, each a byte, a pointer or a nested struct / packed struct / union of <= 2 such members, alone or as an array of 2; pointer size 32 (where the layout differs from the host)
 CONSTANTS
   RawT = {"B", "P"}
   ArrN = {}
@@ -14,7 +14,7 @@ CONSTANTS
   BitSplits <- BitSplitsNone
   PS = {32}
   VCs = {"pat"}
-  Stride = 5
+  Stride = 8
   Dev = {}
   Mode = "gen"
 INIT Init
